@@ -78,6 +78,16 @@ def main():
                 nd[tid] = dt
                 meta[tid] = (r, k)
                 jobs.append({'tid': tid, 'deck': dt, 'opts': []})
+            if k > 0:
+                # the facet reference under a complement: #( b.k ) written out, and #n of the cell that holds it
+                for geom1 in (['N', ['S', 1, k]], ['S', 1, k]):
+                    tid += 1
+                    dn = adeck.normalise({'surfs': [dict(r['card'], n=1)],
+                                          'cells': [{'n': 1, 'geom': geom1}, {'n': 2, 'geom': ['C', 1]}]})
+                    dn['pts'] = d['pts']
+                    nd[tid] = dn
+                    meta[tid] = (r, k)
+                    jobs.append({'tid': tid, 'deck': dn, 'opts': []})
             if k in (0, 1) or thorough:
                 # the body (or the facet) in a universe cell that carries a TRCL, the universe placed by a FILL with
                 # another transformation: the surface goes through two successive transformations
